@@ -39,6 +39,7 @@ class Loop:
         self.header = header
         self.elem_facts = elem_facts or []
         self.exit_only = exit_only
+        self.skip_exit = False
         self.list_folds = list_folds or {}
 
 
